@@ -585,9 +585,10 @@ void ExpressionBuilder::expr_dot(const char* id)
         }
     } else if (type.is_process()) {
         symbol_t name = expr.get_symbol();
-        auto* process = static_cast<instance_t*>(name.get_data());
+        // an expression of process type that is not a process name (e.g. the rate P') has no symbol to look the instance up with
+        auto* process = name == symbol_t() ? nullptr : static_cast<instance_t*>(name.get_data());
         auto i = type.find_index_of(id);
-        if (!i) {
+        if (!i || process == nullptr) {
             handle_error(HasNoMemberError(id));
         } else if (type.get_sub(*i).is_location()) {
             expr = expression_t::create_dot(expr, *i, position, type_t::create_primitive(Constants::BOOL));
